@@ -108,3 +108,23 @@ Print Assumptions C14_starts_nonneg.
 Print Assumptions C14_filler_added.
 Print Assumptions C14_clipped_duration.
 Print Assumptions C14_exact_duration.
+
+(* ---- int64 (second audit, N10; Model/Ops64.v, Proofs/Ops64Proofs.v) ----
+   ForceDuration compares and copies, with one subtraction: the filler's start d - time.Millisecond.  Range: d - 1 ms is
+   an int64 value (true of every d >= 0, hence of the property's d >= 1 ms).  Inside it [force_duration64] is
+   [force_duration]; outside (d within 1 ms of MinInt64) the filler's start wraps to a huge positive instant. *)
+From Astisub Require Import Kit.Int64 Model.Ops64 Proofs.Ops64Proofs.
+Theorem C14_int64 : forall d dummy u l, in_i64 (d - 1000000) -> force_duration64 d dummy u l = force_duration d dummy u l.
+Proof. exact force_duration64_eq. Qed.
+Theorem C14_int64_range : forall d, 0 <= d -> in_i64 d -> in_i64 (d - 1000000).
+Proof. exact force_range_of_positive. Qed.
+Theorem C14_int64_closed : forall d dummy u l, in_i64 d -> Forall times64 l -> Forall times64 (force_duration64 d dummy u l).
+Proof. exact force_duration64_in. Qed.
+Example C14_int64_wraps :
+  let l := [mkItem 1 i64_min i64_min [] None None false] in
+  map (fun x => (st x, en x)) (force_duration64 (i64_min + 5) true 9 l) = [(i64_min, i64_min); (i64_max - 999994, i64_min + 5)] /\
+  map (fun x => (st x, en x)) (force_duration (i64_min + 5) true 9 l) = [(i64_min, i64_min); (i64_min - 999995, i64_min + 5)].
+Proof. exact force64_wraps. Qed.
+Print Assumptions C14_int64.
+Print Assumptions C14_int64_range.
+Print Assumptions C14_int64_closed.
